@@ -278,6 +278,8 @@ Violation ComputeViolation(
     const CustomFunctionalConstraint<Args, Params, NumOrLogic, Id>& c,
     const VarVec& x) {
   auto resvar = c.GetResultVar();
+  if (resvar < 0)            // no result variable (e.g., the dummy
+    return {0.0, 0.0};       // UnaryEncodingConstraint): nothing to compare
   if (!x.recomp_vals()) {    // solver's var values: normal check
     auto viol = x[resvar] - ComputeValue(c, x);
     switch (c.GetContext().GetValue()) {
